@@ -59,8 +59,14 @@ let run (args : (string * string) list) : string =
     (* correspondence: exact equality with the model *)
     let corr name (mcomp, mk) (comp, k) =
       let mc = ints mcomp and mk = int_of_nat mk in
-      add (name ^ "_eq") (if mc = comp && mk = k then "ok"
-                          else fail ("model:" ^ string_of_ints mc ^ ";k:" ^ string_of_int mk)) in
+      (* the property fixes the partition and the density of the indices, not the numbering:
+         the model must yield the same partition with the same number of components; whether
+         the numbering coincides too is recorded *)
+      let same_part = mk = k && List.length mc = List.length comp
+                      && same_partition (Array.of_list mc) (Array.of_list comp) in
+      add (name ^ "_eq") (if same_part then "ok"
+                          else fail ("model:" ^ string_of_ints mc ^ ";k:" ^ string_of_int mk));
+      add ("i_" ^ name ^ "_numbering") (if mc = comp then "same" else "differs") in
     let tj = impl "tj" and ko = impl "ko" and tjs = impl "tjs" and ss = impl "ss" in
     oracle "tj" g tab_g "tj" tj;
     oracle "ko" g tab_g "ko" ko;
@@ -97,7 +103,10 @@ let run (args : (string * string) list) : string =
             if big then List.length comp = n && dense (Array.of_list comp) k
             else chk "s" sg tab_s comp k in
           if not good then bad_o := (string_of_int t ^ ":" ^ string_of_ints comp) :: !bad_o;
-          if not (comp = mspc && k = mspk) then bad_c := (string_of_int t ^ ":" ^ string_of_ints comp) :: !bad_c
+          (* same partition and count as the model (the numbering is not part of the property) *)
+          if not (k = mspk && List.length comp = List.length mspc
+                  && same_partition (Array.of_list comp) (Array.of_list mspc)) then
+            bad_c := (string_of_int t ^ ":" ^ string_of_ints comp) :: !bad_c
         end) threads;
     add (if big then "sp_dense" else "sp_scc") (if !bad_o = [] then "ok" else fail (String.concat "|" (List.rev !bad_o)));
     add "sp_eq" (if !bad_c = [] then "ok" else fail (String.concat "|" (List.rev !bad_c)));
